@@ -314,9 +314,20 @@ TEMPLATES = [
     S(0, 2, 0, 6, 0, 0, 0),            # vendor request, no data stage, request code of GET_DESCRIPTOR
 ]
 
+# STANDARD requests whose bRequest is an implemented request code with bits 7:6 set (0x40 / 0x80 / 0xC0), and 0xFF:
+# unsupported; a handler that decodes only the low bits of bRequest would execute them (seeded mutation C10_4)
+IMPLEMENTED = [TEMPLATES[k] for k in (3, 5, 1, 0, 4, 2)]       # GET_STATUS, CLEAR_FEATURE(HALT), SET_ADDRESS, GET_DESCRIPTOR, GET_/SET_CONFIGURATION
+HIGH_REQ_TEMPLATES = [dict(t, request=t["request"] | hi) for t in IMPLEMENTED for hi in (0x40, 0x80, 0xC0)] + \
+                     [dict(TEMPLATES[1], request=0xFF)]
+
 
 def rand_setup(rng):
     r = rng.random()
+    if r < 0.12:
+        s = dict(rng.choice(HIGH_REQ_TEMPLATES))
+        if rng.random() < 0.3:
+            s["request"] = rng.choice([s["request"], (s["request"] & 0x3F) | rng.choice([0x40, 0x80, 0xC0])])
+        return s
     if r < 0.7:
         s = dict(rng.choice(TEMPLATES))
         if rng.random() < 0.2:
@@ -325,7 +336,7 @@ def rand_setup(rng):
             s["is_in_request"] = rng.randrange(2)
         return s
     return S(rng.randrange(2), rng.choice([0, 0, 0, 1, 2, 3]), rng.choice([0, 1, 2, 3, 31]),
-             rng.choice([0, 1, 3, 5, 6, 7, 8, 9, 10, 11, 12, 0x42, 0xFF, rng.randrange(256)]),
+             rng.choice([0, 1, 3, 5, 6, 7, 8, 9, 10, 11, 12, 0x42, 0x45, 0x86, 0xC9, 0xFF, rng.randrange(256)]),
              rng.choice([0, 1, 2, 0x0100, 0x0200, 0xFFFF, rng.randrange(1 << 16)]),
              rng.choice([0, 0x81, 0x02, rng.randrange(1 << 16)]),
              rng.choice([0, 0, 1, 2, 8, 18, 64, 0x100, 0xFFFF]))
@@ -521,9 +532,11 @@ ASSUMPTIONS = [
 
 
 # ---- input alphabets of the kernel-checked netlist = model obligations ---------------------------------------
-def alphabet(ep, tier):
+def alphabet(ep, tier, high_req=False):
     """Input words = (setup fields of a request template) x (token context) x (a set of strobe combinations).
-    Every word may follow every other word: fields and token context are NOT assumed stable between cycles."""
+    Every word may follow every other word: fields and token context are NOT assumed stable between cycles.
+    high_req: additionally the HIGH_REQ_TEMPLATES (bRequest = implemented code | 0x40 / 0x80 / 0xC0, and 0xFF) x
+    {IN, OUT context for this endpoint} x {none, received, answer opportunities, host ACK, new token}."""
     other = 1 if ep != 1 else 0
     if tier == "quick":
         tmpl = [TEMPLATES[k] for k in (0, 1, 3, 5, 6, 9, 10, 11)]
@@ -553,6 +566,14 @@ def alphabet(ep, tier):
                 w = pack_word(c)
                 if w not in words:
                     words.append(w)
+    if high_req:
+        for t in HIGH_REQ_TEMPLATES:
+            for kind in ("in", "out"):
+                for st in ({}, {"received": 1}, {"rfr": 1}, {"rx_rfr": 1}, {"hs_ack": 1}, {"new_token": 1}):
+                    c = dict(t); c["endpoint"] = ep; c[KIND[kind]] = 1; c.update(st)
+                    w = pack_word(c)
+                    if w not in words:
+                        words.append(w)
     return words
 
 
